@@ -409,6 +409,15 @@ def _alloc(ex, st, n, size, what):
     st.ghost[key] = cnt + 1
     r = Region('malloc', '%s@%s#%d' % (what, n.get('line'), cnt), size)
     isnull = z3.Bool('alloc_fails@%s.%s#%d' % (n.get('line'), key[2], cnt))
+    if ex.cfg.get('small_malloc_succeeds'):
+        sz_ = z3.simplify(size) if isinstance(size, z3.ExprRef) else None
+        if sz_ is not None and z3.is_int_value(sz_) and sz_.as_long() <= 4096:
+            # ASSUMPTION (listed): the allocation of a small fixed-size
+            # block succeeds (the function does not test the result)
+            ex.trusted.add('assumption: malloc of a fixed block of %d bytes '
+                           'succeeds (line %s does not test the result)' % (
+                               sz_.as_long(), n.get('line')))
+            isnull = None
     t = CT(n['ty'])
     return PtrV(r, 0, t.pointee or 'void', null=isnull)
 
